@@ -31,6 +31,9 @@ type Encoder struct {
 	clsDefList []ClassDef
 	nameMap    map[string]string
 	refMap     map[_refKey]int
+	// first error returned by the writer on this stream; once set, nothing
+	// more is written and every write call on the stream reports it
+	err error
 }
 
 //NewEncoder new
@@ -50,6 +53,7 @@ func NewEncoder(w io.Writer, np map[string]string) *Encoder {
 //Reset reset
 func (e *Encoder) Reset(w io.Writer) {
 	e.writer = w
+	e.err = nil
 	e.clsDefList = make([]ClassDef, 0, 11)
 	e.refMap = make(map[_refKey]int, 11)
 }
@@ -67,7 +71,23 @@ func (e *Encoder) RegisterNameMap(mp map[string]string) {
 //WriteObject write object
 func (e *Encoder) WriteObject(data interface{}) error {
 	_, err := e.WriteData(data)
+	if err == nil {
+		// tags, headers and end marks are written without checking each result
+		err = e.err
+	}
 	return err
+}
+
+// write sends bytes to the target writer and remembers the first failure
+func (e *Encoder) write(p []byte) (int, error) {
+	if e.err != nil {
+		return 0, e.err
+	}
+	n, err := e.writer.Write(p)
+	if err != nil {
+		e.err = err
+	}
+	return n, err
 }
 
 //WriteTo write object to target writer
@@ -169,15 +189,15 @@ func (e *Encoder) WriteData(data interface{}) (int, error) {
 }
 
 func (e *Encoder) writeString(value string) (int, error) {
-	return e.writer.Write(encodeString(value))
+	return e.write(encodeString(value))
 }
 
 func (e *Encoder) writeInt(value int32) (int, error) {
-	return e.writer.Write(encodeInt(value))
+	return e.write(encodeInt(value))
 }
 
 func (e *Encoder) writeLong(value int64) (int, error) {
-	return e.writer.Write(encodeLong(value))
+	return e.write(encodeLong(value))
 }
 
 func (e *Encoder) writeDouble(value float64) (int, error) {
@@ -185,21 +205,21 @@ func (e *Encoder) writeDouble(value float64) (int, error) {
 	if err != nil {
 		return 0, err
 	}
-	return e.writer.Write(bytes)
+	return e.write(bytes)
 }
 
 func (e *Encoder) writeBoolean(value bool) (int, error) {
-	return e.writer.Write(encodeBoolean(value))
+	return e.write(encodeBoolean(value))
 }
 
 func (e *Encoder) writeBinary(value []byte) (int, error) {
-	return e.writer.Write(encodeBinary(value))
+	return e.write(encodeBinary(value))
 }
 
 func (e *Encoder) writeBT(bs ...byte) (int, error) {
-	return e.writer.Write(bs)
+	return e.write(bs)
 }
 
 func (e *Encoder) writeBytes(bytes []byte) (int, error) {
-	return e.writer.Write(bytes)
+	return e.write(bytes)
 }
